@@ -33,6 +33,7 @@ CATALOGUE = {
     # time
     "s": (T, 1.0, 0.0), "min": (T, 60.0, 0.0), "h": (T, 3600.0, 0.0), "hour": (T, 3600.0, 0.0),
     "d": (T, 86400.0, 0.0), "day": (T, 86400.0, 0.0), "year": (T, 365.25 * 86400.0, 0.0), "ms": (T, 1e-3, 0.0),
+    "common_year": (T, 365.0 * 86400.0, 0.0), "leap_year": (T, 366.0 * 86400.0, 0.0),  # within 0.3% of year
     # speed / rates
     "m/s": (SPEED, 1.0, 0.0), "m s-1": (SPEED, 1.0, 0.0), "km/h": (SPEED, 1000.0 / 3600.0, 0.0),
     "mm/d": (SPEED, 1e-3 / 86400.0, 0.0), "mm d-1": (SPEED, 1e-3 / 86400.0, 0.0), "mm/day": (SPEED, 1e-3 / 86400.0, 0.0),
